@@ -207,6 +207,20 @@ fn main() {
                 }
             }
         }
+        // C06 judges three builds of the same harness: replay through the others as well
+        if prop == "C06" && std::env::var("VERIF_SUMMARY_ONLY").is_err() {
+            for rel in ["target/chk/check", "target-safe/chk/check"] {
+                let exe = format!("{}/harness/{}", verif_dir(), rel);
+                if std::path::Path::new(&exe).exists() {
+                    let st = std::process::Command::new(&exe).arg(&prop).arg("--replay").arg(&path).env("VERIF_SUMMARY_ONLY", rel).env_remove("VERIF_CHILD").status();
+                    if let Ok(st) = st {
+                        if st.code() == Some(1) {
+                            bad += 1;
+                        }
+                    }
+                }
+            }
+        }
         std::process::exit(if bad > 0 { 1 } else { 0 });
     }
 
